@@ -1,7 +1,708 @@
-(* C16 — lemmas. *)
+(* C16 — lemmas.  Route: (1) one model step on a structured memory; (2) the unrolled stride
+   and the fall-through tail are iterations of that step; (3) k iterations over k full
+   blocks compute the block-level recursion encK / decK; (4) textbook CFB on
+   (full blocks ++ short tail) is the same recursion; (5) assemble, for every length. *)
 From Coq Require Import NArith List Bool Arith Lia.
 From FV Require Import C16.Model.
 Import ListNotations.
+
+(* ---------- xorl ---------- *)
+Lemma xorl_length : forall a b, length (xorl a b) = Nat.min (length a) (length b).
+Proof.
+  induction a as [|x a IH]; intros [|y b]; cbn [xorl length Nat.min]; try reflexivity.
+  rewrite IH. reflexivity.
+Qed.
+
+Lemma xorl_nil_l b : xorl [] b = [].
+Proof. reflexivity. Qed.
+
+Lemma xorl_nil_r a : xorl a [] = [].
+Proof. destruct a; reflexivity. Qed.
+
+Lemma xorl_invol : forall a k, length a <= length k -> xorl (xorl a k) k = a.
+Proof.
+  induction a as [|x a IH]; intros [|y k] H; cbn [xorl length] in *; try reflexivity; try lia.
+  rewrite IH by lia. f_equal.
+  rewrite N.lxor_assoc, N.lxor_nilpotent, N.lxor_0_r. reflexivity.
+Qed.
+
+(* ---------- memory ---------- *)
+Lemma skipn_at {A} (pre x : list A) off : length pre = off -> skipn off (pre ++ x) = x.
+Proof. intros <-. rewrite skipn_app, skipn_all, Nat.sub_diag. reflexivity. Qed.
+
+Lemma firstn_at {A} (pre x : list A) off : length pre = off -> firstn off (pre ++ x) = pre.
+Proof. intros <-. rewrite firstn_app, firstn_all, Nat.sub_diag. cbn. apply app_nil_r. Qed.
+
+Lemma skipn_skipn_add {A} (l : list A) : forall b a, skipn a (skipn b l) = skipn (b + a) l.
+Proof.
+  induction l as [|x l IH]; intros b a.
+  - rewrite !skipn_nil. reflexivity.
+  - destruct b as [|b]; [reflexivity|]. cbn [skipn Nat.add]. apply IH.
+Qed.
+
+Lemma rd_at pre blk post off n :
+  length pre = off -> length blk = n -> rd off n (pre ++ blk ++ post) = blk.
+Proof. intros Hp Hb. unfold rd. rewrite (skipn_at _ _ _ Hp). apply firstn_at. exact Hb. Qed.
+
+Lemma wr_at pre blk post b off :
+  length pre = off -> length blk = length b -> wr off b (pre ++ blk ++ post) = pre ++ b ++ post.
+Proof.
+  intros Hp Hb. unfold wr. rewrite (firstn_at _ _ _ Hp). f_equal. f_equal.
+  rewrite app_assoc. apply skipn_at. rewrite app_length. lia.
+Qed.
+
+Lemma rd_0 ks brest n : length ks = n -> rd 0 n (ks ++ brest) = ks.
+Proof. intros H. exact (rd_at [] ks brest 0 n eq_refl H). Qed.
+
+Lemma wr_0 ks brest b : length ks = length b -> wr 0 b (ks ++ brest) = b ++ brest.
+Proof. intros H. exact (wr_at [] ks brest b 0 eq_refl H). Qed.
+
+Lemma wr_length off b m : off + length b <= length m -> length (wr off b m) = length m.
+Proof.
+  intros H. unfold wr. rewrite !app_length, firstn_length, skipn_length. lia.
+Qed.
+
+Definition fullb (bs : nat) (b : list N) : Prop := length b = bs.
+
+Lemma concat_full_length bs (bl : list (list N)) :
+  Forall (fullb bs) bl -> length (concat bl) = bs * length bl.
+Proof.
+  induction 1 as [|b bl Hb _ IH]; cbn [concat length]; [lia|].
+  rewrite app_length, IH, Hb. lia.
+Qed.
+
+Section Generic.
+  Variable bs : nat.
+  Variable E : list N -> list N.
+  Hypothesis Hbs : 0 < bs.
+
+  Notation Eb := (Eb bs E).
+  Notation full := (fullb bs).
+
+  Lemma fit_length l : length (fit bs l) = bs.
+  Proof. unfold fit. rewrite firstn_length, app_length, repeat_length. lia. Qed.
+
+  Lemma Eb_length x : length (Eb x) = bs.
+  Proof. apply fit_length. Qed.
+
+  Lemma Eb_app c r : length c = bs -> Eb (c ++ r) = Eb c.
+  Proof.
+    intros Hc. unfold Model.Eb. rewrite (firstn_at c r bs Hc).
+    replace (firstn bs c) with c by (rewrite <- Hc, firstn_all; reflexivity). reflexivity.
+  Qed.
+
+  Lemma Eb_firstn x : Eb (firstn bs x) = Eb x.
+  Proof. unfold Model.Eb. rewrite firstn_firstn, Nat.min_id. reflexivity. Qed.
+
+  (* ================= encryption ================= *)
+
+  (* (1) one step on a structured memory *)
+  Lemma enc_step_at pre blk post ks brest off :
+    length pre = off -> full blk -> full ks ->
+    enc_step bs E off (mkst (pre ++ blk ++ post) (ks ++ brest)) =
+    mkst (pre ++ xorl blk ks ++ post) (Eb (xorl blk ks) ++ brest).
+  Proof.
+    intros Hp Hb Hk. unfold enc_step. cbn [data buf].
+    rewrite (rd_at pre blk post off bs Hp Hb).
+    rewrite (rd_0 ks brest bs Hk).
+    assert (Hx : length (xorl blk ks) = bs) by (rewrite xorl_length, Hb, Hk; lia).
+    rewrite (wr_at pre blk post (xorl blk ks) off Hp) by (rewrite Hx; exact Hb).
+    rewrite (skipn_at _ _ _ Hp). rewrite (Eb_app _ _ Hx).
+    rewrite (wr_0 ks brest (Eb (xorl blk ks))) by (rewrite Eb_length; exact Hk).
+    reflexivity.
+  Qed.
+
+  (* (2) iteration of the step *)
+  Fixpoint enc_iter (k off : nat) (s : st) : nat * st :=
+    match k with
+    | O => (off, s)
+    | S k' => enc_iter k' (off + bs) (enc_step bs E off s)
+    end.
+
+  Lemma enc_stride_iter s : enc_stride bs E s = snd (enc_iter 8 0 s).
+  Proof.
+    unfold enc_stride. cbn [enc_iter snd].
+    replace (0 * bs) with 0 by lia.
+    replace (1 * bs) with (0 + bs) by lia.
+    replace (2 * bs) with (0 + bs + bs) by lia.
+    replace (3 * bs) with (0 + bs + bs + bs) by lia.
+    replace (4 * bs) with (0 + bs + bs + bs + bs) by lia.
+    replace (5 * bs) with (0 + bs + bs + bs + bs + bs) by lia.
+    replace (6 * bs) with (0 + bs + bs + bs + bs + bs + bs) by lia.
+    replace (7 * bs) with (0 + bs + bs + bs + bs + bs + bs + bs) by lia.
+    reflexivity.
+  Qed.
+
+  Lemma enc_tail_iter k off s : k <= 7 -> enc_tail bs E k (off, s) = enc_iter k off s.
+  Proof.
+    intros Hk. unfold enc_tail, enc_case.
+    do 8 (destruct k as [|k]; [cbn [Nat.leb fst snd enc_iter]; reflexivity|]). lia.
+  Qed.
+
+  (* (3) the block-level recursion: ciphertext blocks and the keystream block left in tbl *)
+  Fixpoint encK (ks : list N) (bl : list (list N)) : list (list N) * list N :=
+    match bl with
+    | [] => ([], ks)
+    | p :: r => let c := xorl p ks in
+                let (cs, k') := encK (Eb c) r in (c :: cs, k')
+    end.
+
+  Lemma encK_app ks bl1 bl2 :
+    encK ks (bl1 ++ bl2) =
+    (fst (encK ks bl1) ++ fst (encK (snd (encK ks bl1)) bl2), snd (encK (snd (encK ks bl1)) bl2)).
+  Proof.
+    revert ks. induction bl1 as [|p r IH]; intros ks; cbn [encK app fst snd].
+    - destruct (encK ks bl2); reflexivity.
+    - rewrite IH. destruct (encK (Eb (xorl p ks)) r) as [cs k']. cbn [fst snd app]. reflexivity.
+  Qed.
+
+  Lemma encK_ks_full ks bl : full ks -> full (snd (encK ks bl)).
+  Proof.
+    revert ks. induction bl as [|p r IH]; intros ks Hk; cbn [encK snd]; [exact Hk|].
+    specialize (IH (Eb (xorl p ks)) (Eb_length _)).
+    destruct (encK (Eb (xorl p ks)) r). exact IH.
+  Qed.
+
+  Lemma encK_full ks bl : full ks -> Forall full bl -> Forall full (fst (encK ks bl)).
+  Proof.
+    intros Hk Hbl. revert ks Hk. induction Hbl as [|p r Hp _ IH]; intros ks Hk; cbn [encK fst]; [constructor|].
+    specialize (IH (Eb (xorl p ks)) (Eb_length _)).
+    destruct (encK (Eb (xorl p ks)) r). cbn [fst] in *. constructor; [|exact IH].
+    unfold fullb in *. rewrite xorl_length, Hp, Hk. lia.
+  Qed.
+
+  Lemma encK_length ks bl : length (fst (encK ks bl)) = length bl.
+  Proof.
+    revert ks. induction bl as [|p r IH]; intros ks; cbn [encK fst length]; [reflexivity|].
+    specialize (IH (Eb (xorl p ks))). destruct (encK (Eb (xorl p ks)) r). cbn [fst length] in *. lia.
+  Qed.
+
+  Lemma enc_iter_spec bl : forall pre post ks brest off,
+    length pre = off -> Forall full bl -> full ks ->
+    enc_iter (length bl) off (mkst (pre ++ concat bl ++ post) (ks ++ brest)) =
+    (off + bs * length bl,
+     mkst (pre ++ concat (fst (encK ks bl)) ++ post) (snd (encK ks bl) ++ brest)).
+  Proof.
+    induction bl as [|p r IH]; intros pre post ks brest off Hp Hbl Hk.
+    - cbn [length enc_iter concat encK fst snd]. f_equal. lia.
+    - apply Forall_cons_iff in Hbl. destruct Hbl as [Hpf Hr].
+      cbn [length enc_iter concat encK]. rewrite <- app_assoc.
+      rewrite (enc_step_at pre p (concat r ++ post) ks brest off Hp Hpf Hk).
+      assert (Hx : length (xorl p ks) = bs) by (unfold fullb in *; rewrite xorl_length, Hpf, Hk; lia).
+      replace (pre ++ xorl p ks ++ concat r ++ post) with ((pre ++ xorl p ks) ++ concat r ++ post)
+        by (rewrite <- app_assoc; reflexivity).
+      rewrite (IH (pre ++ xorl p ks) post (Eb (xorl p ks)) brest (off + bs))
+        by (try rewrite app_length; try apply Eb_length; try assumption; lia).
+      destruct (encK (Eb (xorl p ks)) r) as [cs k']. cbn [fst snd concat].
+      f_equal; [lia|]. f_equal. rewrite <- !app_assoc. reflexivity.
+  Qed.
+
+  Lemma enc_stride_spec bl ks brest :
+    Forall full bl -> length bl = 8 -> full ks ->
+    enc_stride bs E (mkst (concat bl) (ks ++ brest)) =
+    mkst (concat (fst (encK ks bl))) (snd (encK ks bl) ++ brest).
+  Proof.
+    intros Hbl Hlen Hk. rewrite enc_stride_iter. rewrite <- Hlen.
+    pose proof (enc_iter_spec bl [] [] ks brest 0 eq_refl Hbl Hk) as H.
+    cbn [app] in H. rewrite !app_nil_r in H. rewrite H. reflexivity.
+  Qed.
+
+  Lemma firstn_skipn_blocks (bl : list (list N)) n :
+    Forall full bl -> Forall full (firstn n bl) /\ Forall full (skipn n bl).
+  Proof.
+    intros H. rewrite <- (firstn_skipn n bl) in H. apply Forall_app in H. exact H.
+  Qed.
+
+  Lemma enc_loop_spec iters : forall bl done rest ks brest,
+    Forall full bl -> length bl = 8 * iters -> full ks ->
+    enc_loop bs E iters done (concat bl ++ rest) (ks ++ brest) =
+    (done ++ concat (fst (encK ks bl)), mkst rest (snd (encK ks bl) ++ brest)).
+  Proof.
+    induction iters as [|it IH]; intros bl done rest ks brest Hbl Hlen Hk.
+    - destruct bl; [|cbn in Hlen; lia]. cbn [enc_loop concat encK fst snd app]. rewrite app_nil_r. reflexivity.
+    - cbn [enc_loop].
+      destruct (firstn_skipn_blocks bl 8 Hbl) as [H1 H2].
+      assert (L1 : length (firstn 8 bl) = 8) by (rewrite firstn_length; lia).
+      assert (L2 : length (skipn 8 bl) = 8 * it) by (rewrite skipn_length; lia).
+      pose proof (firstn_skipn 8 bl) as Ebl.
+      remember (firstn 8 bl) as bl1 eqn:E1. remember (skipn 8 bl) as bl2 eqn:E2.
+      clear E1 E2 Hbl Hlen. subst bl.
+      assert (Lc : length (concat bl1) = 8 * bs)
+        by (rewrite (concat_full_length bs _ H1), L1; lia).
+      rewrite concat_app, <- app_assoc.
+      rewrite (firstn_at _ _ _ Lc), (skipn_at _ _ _ Lc).
+      rewrite (enc_stride_spec _ ks brest H1 L1 Hk). cbn [data buf].
+      rewrite (IH bl2 _ rest _ brest H2 L2 (encK_ks_full ks _ Hk)).
+      rewrite encK_app. cbn [fst snd].
+      rewrite concat_app, app_assoc. reflexivity.
+  Qed.
+
+  (* the remainder: xorBytes(dst[base:], src[base:], tbl) *)
+  Lemma enc_rem_spec pre tail ks brest off :
+    length pre = off -> length tail <= bs -> full ks ->
+    enc_rem bs (off, mkst (pre ++ tail) (ks ++ brest)) = mkst (pre ++ xorl tail ks) (ks ++ brest).
+  Proof.
+    intros Hp Ht Hk. unfold enc_rem. cbn [data buf].
+    rewrite (skipn_at _ _ _ Hp), (rd_0 ks brest bs Hk).
+    f_equal.
+    pose proof (wr_at pre tail [] (xorl tail ks) off Hp) as H. rewrite !app_nil_r in H.
+    apply H. unfold fullb in Hk. rewrite xorl_length, Hk. lia.
+  Qed.
+
+  (* (4) textbook CFB on full blocks ++ short tail *)
+  Lemma cfb_enc_aux_nil fuel fb : cfb_enc_aux bs E fuel fb [] = [].
+  Proof. destruct fuel; reflexivity. Qed.
+
+  Lemma cfb_enc_blocks bl : forall fuel fb tail,
+    Forall full bl -> length tail < bs -> length (concat bl ++ tail) <= fuel ->
+    cfb_enc_aux bs E fuel fb (concat bl ++ tail) =
+    concat (fst (encK (Eb fb) bl)) ++ xorl tail (snd (encK (Eb fb) bl)).
+  Proof.
+    induction bl as [|p r IH]; intros fuel fb tail Hbl Ht Hf.
+    - cbn [concat app encK fst snd] in *.
+      destruct tail as [|t tl]; [rewrite cfb_enc_aux_nil; reflexivity|].
+      destruct fuel as [|f]; [cbn in Hf; lia|]. cbn [cfb_enc_aux].
+      rewrite firstn_all2 by lia. rewrite skipn_all2 by lia. rewrite cfb_enc_aux_nil, app_nil_r. reflexivity.
+    - apply Forall_cons_iff in Hbl. destruct Hbl as [Hp Hr]. cbn [concat] in *. rewrite <- app_assoc in *.
+      rewrite app_length in Hf. unfold fullb in Hp.
+      destruct fuel as [|f]; [lia|]. cbn [cfb_enc_aux].
+      destruct p as [|p0 pr]; [cbn in Hp; lia|].
+      change ((p0 :: pr) ++ concat r ++ tail) with ((p0 :: pr) ++ (concat r ++ tail)).
+      remember (p0 :: pr) as p eqn:Ep.
+      assert (Hne : p ++ concat r ++ tail <> []) by (subst p; discriminate).
+      destruct (p ++ concat r ++ tail) as [|z zs] eqn:Ez; [contradiction|]. rewrite <- Ez.
+      rewrite (firstn_at p _ bs Hp), (skipn_at p _ bs Hp).
+      rewrite (IH f (xorl p (Eb fb)) tail Hr Ht) by lia.
+      cbn [encK]. destruct (encK (Eb (xorl p (Eb fb))) r) as [cs k']. cbn [fst snd concat].
+      rewrite <- app_assoc. reflexivity.
+  Qed.
+
+  (* every message is full blocks ++ a short tail *)
+  Fixpoint blocks_of (n : nat) (l : list N) : list (list N) :=
+    match n with
+    | O => []
+    | S k => firstn bs l :: blocks_of k (skipn bs l)
+    end.
+
+  Lemma blocks_of_spec n : forall l, n * bs <= length l ->
+    Forall full (blocks_of n l) /\ length (blocks_of n l) = n /\
+    l = concat (blocks_of n l) ++ skipn (n * bs) l.
+  Proof.
+    induction n as [|k IH]; intros l Hl.
+    - cbn. repeat split; constructor.
+    - cbn [blocks_of]. destruct (IH (skipn bs l)) as (F & L & C).
+      { rewrite skipn_length. cbn in Hl. lia. }
+      repeat split.
+      + constructor; [|exact F]. unfold fullb. rewrite firstn_length. cbn in Hl. lia.
+      + cbn [length]. lia.
+      + cbn [concat]. rewrite <- app_assoc.
+        replace (skipn (S k * bs) l) with (skipn (k * bs) (skipn bs l))
+          by (rewrite skipn_skipn_add; replace (bs + k * bs) with (S k * bs) by lia; reflexivity).
+        rewrite <- C. symmetry. apply firstn_skipn.
+  Qed.
+
+  Lemma decompose (msg : list N) :
+    exists bl tail, msg = concat bl ++ tail /\ Forall full bl /\ length tail < bs /\
+                    length bl = length msg / bs.
+  Proof.
+    set (n := length msg / bs).
+    assert (Hn : n * bs <= length msg) by (unfold n; rewrite Nat.mul_comm; apply Nat.mul_div_le; lia).
+    destruct (blocks_of_spec n msg Hn) as (F & L & C).
+    exists (blocks_of n msg), (skipn (n * bs) msg). repeat split; try assumption.
+    rewrite skipn_length. unfold n.
+    pose proof (Nat.div_mod (length msg) bs ltac:(lia)) as D.
+    pose proof (Nat.mod_upper_bound (length msg) bs ltac:(lia)) as U. lia.
+  Qed.
+
+  (* (5) assembly *)
+  Theorem encrypt_is_cfb iv msg b :
+    bs <= length iv -> bs <= length b ->
+    exists b', encrypt_bs bs E iv (mkst msg b) = Some (mkst (cfb_enc bs E (firstn bs iv) msg) b')
+               /\ length b' = length b.
+  Proof.
+    intros Hiv Hb. unfold encrypt_bs. cbn [data buf].
+    replace (length iv <? bs) with false by (symmetry; apply Nat.ltb_ge; lia).
+    replace (length b <? bs) with false by (symmetry; apply Nat.ltb_ge; lia).
+    cbn [orb].
+    destruct (decompose msg) as (bl & tail & Em & Fbl & Lt & Ln). subst msg.
+    rewrite <- Ln. clear Ln.
+    (* the specification side, on blocks *)
+    assert (Hspec : cfb_enc bs E (firstn bs iv) (concat bl ++ tail) =
+                    concat (fst (encK (Eb iv) bl)) ++ xorl tail (snd (encK (Eb iv) bl))).
+    { unfold cfb_enc. rewrite (cfb_enc_blocks bl _ _ tail Fbl Lt) by lia. rewrite Eb_firstn. reflexivity. }
+    rewrite Hspec. clear Hspec.
+    (* scratch = first bs bytes ++ rest *)
+    assert (Eb0 : wr 0 (Eb iv) b = Eb iv ++ skipn bs b).
+    { unfold wr. cbn [firstn app Nat.add]. rewrite Eb_length. reflexivity. }
+    rewrite Eb0. clear Eb0.
+    assert (Lr : bs + length (skipn bs b) = length b) by (rewrite skipn_length; lia).
+    remember (skipn bs b) as brest eqn:Ebr. clear Ebr.
+    (* split the blocks at the stride boundary *)
+    remember (length bl) as n eqn:En.
+    assert (Dn : n = 8 * (n / 8) + n mod 8) by (apply Nat.div_mod; lia).
+    assert (Un : n mod 8 < 8) by (apply Nat.mod_upper_bound; lia).
+    destruct (firstn_skipn_blocks bl (8 * (n / 8)) Fbl) as [F1 F2].
+    assert (L1 : length (firstn (8 * (n / 8)) bl) = 8 * (n / 8)) by (rewrite firstn_length; lia).
+    assert (L2 : length (skipn (8 * (n / 8)) bl) = n mod 8) by (rewrite skipn_length; lia).
+    pose proof (firstn_skipn (8 * (n / 8)) bl) as Ebl.
+    remember (firstn (8 * (n / 8)) bl) as bl1 eqn:E1. remember (skipn (8 * (n / 8)) bl) as bl2 eqn:E2.
+    clear E1 E2 En Fbl. subst bl.
+    assert (Hk0 : full (Eb iv)) by apply Eb_length.
+    rewrite concat_app, <- app_assoc.
+    rewrite (enc_loop_spec (n / 8) bl1 [] (concat bl2 ++ tail) (Eb iv) brest F1 L1 Hk0).
+    cbn [app]. rewrite encK_app. cbn [fst snd].
+    remember (snd (encK (Eb iv) bl1)) as k1 eqn:Ek1.
+    assert (Hk1 : full k1) by (subst k1; apply encK_ks_full; exact Hk0).
+    rewrite enc_tail_iter by lia. rewrite <- L2.
+    pose proof (enc_iter_spec bl2 [] tail k1 brest 0 eq_refl F2 Hk1) as H. cbn [app] in H.
+    rewrite H. clear H.
+    remember (snd (encK k1 bl2)) as k2 eqn:Ek2.
+    assert (Hk2 : full k2) by (subst k2; apply encK_ks_full; exact Hk1).
+    assert (Lc2 : length (concat (fst (encK k1 bl2))) = 0 + bs * length bl2).
+    { rewrite (concat_full_length bs) by (apply encK_full; assumption). rewrite encK_length. lia. }
+    rewrite (enc_rem_spec _ tail k2 brest _ Lc2 ltac:(lia) Hk2). cbn [data buf].
+    exists (k2 ++ brest). split.
+    - f_equal. f_equal. rewrite concat_app, <- app_assoc. reflexivity.
+    - rewrite app_length. unfold fullb in Hk2. lia.
+  Qed.
+
+  (* ================= decryption ================= *)
+
+  (* layout of the scratch buffer: tbl content t, next content x; f = headers swapped *)
+  Definition lay (f : bool) (t x brest : list N) : list N :=
+    if f then x ++ t ++ brest else t ++ x ++ brest.
+  Definition offs (f : bool) : nat * nat := if f then (bs, 0) else (0, bs).
+
+  Lemma lay_length f t x brest : length (lay f t x brest) = length t + length x + length brest.
+  Proof. destruct f; cbn [lay]; rewrite !app_length; lia. Qed.
+
+  Lemma rd_lay f t x brest : full t -> full x -> rd (fst (offs f)) bs (lay f t x brest) = t.
+  Proof.
+    intros Ht Hx. destruct f; cbn [offs lay fst].
+    - apply rd_at; assumption.
+    - apply rd_0; assumption.
+  Qed.
+
+  (* (1) one step: the new tbl is written over the old next; the old tbl becomes next *)
+  Lemma dec_step_at f pre c post t x brest off :
+    length pre = off -> full c -> full t -> full x ->
+    dec_step bs E (fst (offs f)) (snd (offs f)) off (mkst (pre ++ c ++ post) (lay f t x brest)) =
+    mkst (pre ++ xorl c t ++ post) (lay (negb f) (Eb c) t brest).
+  Proof.
+    intros Hp Hc Ht Hx. unfold dec_step. cbn [data buf].
+    rewrite (skipn_at _ _ _ Hp), (Eb_app _ _ Hc), (rd_at pre c post off bs Hp Hc).
+    assert (He : length (Eb c) = bs) by apply Eb_length.
+    assert (Hxl : length (xorl c t) = length c) by (unfold fullb in *; rewrite xorl_length, Hc, Ht; lia).
+    destruct f; cbn [offs lay fst snd negb].
+    - rewrite (wr_0 x (t ++ brest) (Eb c)) by (rewrite He; exact Hx).
+      rewrite (rd_at (Eb c) t brest bs bs He Ht).
+      rewrite (wr_at pre c post (xorl c t) off Hp) by (symmetry; exact Hxl). reflexivity.
+    - rewrite (wr_at t x brest (Eb c) bs Ht) by (rewrite He; exact Hx).
+      rewrite (rd_0 t (Eb c ++ brest) bs Ht).
+      rewrite (wr_at pre c post (xorl c t) off Hp) by (symmetry; exact Hxl). reflexivity.
+  Qed.
+
+  (* (2) iteration *)
+  Fixpoint dec_iter (k : nat) (p : dstate) : dstate :=
+    match k with
+    | O => p
+    | S k' => let '((toff, noff), (off, s)) := p in
+              dec_iter k' ((noff, toff), (off + bs, dec_step bs E toff noff off s))
+    end.
+
+  Lemma dec_stride_iter s : dec_stride bs E s = snd (snd (dec_iter 8 ((0, bs), (0, s)))).
+  Proof.
+    unfold dec_stride. cbn [dec_iter snd].
+    replace (0 * bs) with 0 by lia.
+    replace (1 * bs) with (0 + bs) by lia.
+    replace (2 * bs) with (0 + bs + bs) by lia.
+    replace (3 * bs) with (0 + bs + bs + bs) by lia.
+    replace (4 * bs) with (0 + bs + bs + bs + bs) by lia.
+    replace (5 * bs) with (0 + bs + bs + bs + bs + bs) by lia.
+    replace (6 * bs) with (0 + bs + bs + bs + bs + bs + bs) by lia.
+    replace (7 * bs) with (0 + bs + bs + bs + bs + bs + bs + bs) by lia.
+    reflexivity.
+  Qed.
+
+  Lemma dec_tail_iter k p : k <= 7 -> dec_tail bs E k p = dec_iter k p.
+  Proof.
+    intros Hk. destruct p as [[toff noff] [off s]]. unfold dec_tail, dec_case.
+    do 8 (destruct k as [|k]; [cbn [Nat.leb dec_iter]; reflexivity|]). lia.
+  Qed.
+
+  (* (3) block level: plaintext blocks and the keystream block left in tbl; the junk left in next *)
+  Fixpoint decK (t : list N) (cl : list (list N)) : list (list N) * list N :=
+    match cl with
+    | [] => ([], t)
+    | c :: r => let (ps, t') := decK (Eb c) r in (xorl c t :: ps, t')
+    end.
+  Fixpoint junkK (t x : list N) (cl : list (list N)) : list N :=
+    match cl with
+    | [] => x
+    | c :: r => junkK (Eb c) t r
+    end.
+  Fixpoint flips (f : bool) (n : nat) : bool :=
+    match n with O => f | S k => flips (negb f) k end.
+
+  Lemma decK_app t cl1 cl2 :
+    decK t (cl1 ++ cl2) =
+    (fst (decK t cl1) ++ fst (decK (snd (decK t cl1)) cl2), snd (decK (snd (decK t cl1)) cl2)).
+  Proof.
+    revert t. induction cl1 as [|c r IH]; intros t; cbn [decK app fst snd].
+    - destruct (decK t cl2); reflexivity.
+    - rewrite IH. destruct (decK (Eb c) r) as [ps t']. cbn [fst snd app]. reflexivity.
+  Qed.
+
+  Lemma junkK_app t x cl1 cl2 :
+    junkK t x (cl1 ++ cl2) = junkK (snd (decK t cl1)) (junkK t x cl1) cl2.
+  Proof.
+    revert t x. induction cl1 as [|c r IH]; intros t x; cbn [junkK decK app snd]; [reflexivity|].
+    rewrite IH. destruct (decK (Eb c) r) as [ps t']. reflexivity.
+  Qed.
+
+  Lemma decK_t_full t cl : full t -> full (snd (decK t cl)).
+  Proof.
+    revert t. induction cl as [|c r IH]; intros t Ht; cbn [decK snd]; [exact Ht|].
+    specialize (IH (Eb c) (Eb_length _)). destruct (decK (Eb c) r). exact IH.
+  Qed.
+
+  Lemma junkK_full t x cl : full t -> full x -> full (junkK t x cl).
+  Proof.
+    revert t x. induction cl as [|c r IH]; intros t x Ht Hx; cbn [junkK]; [exact Hx|].
+    apply IH; [apply Eb_length | exact Ht].
+  Qed.
+
+  Lemma decK_full t cl : full t -> Forall full cl -> Forall full (fst (decK t cl)).
+  Proof.
+    intros Ht Hcl. revert t Ht. induction Hcl as [|c r Hc _ IH]; intros t Ht; cbn [decK fst]; [constructor|].
+    specialize (IH (Eb c) (Eb_length _)).
+    destruct (decK (Eb c) r). cbn [fst] in *. constructor; [|exact IH].
+    unfold fullb in *. rewrite xorl_length, Hc, Ht. lia.
+  Qed.
+
+  Lemma decK_length t cl : length (fst (decK t cl)) = length cl.
+  Proof.
+    revert t. induction cl as [|c r IH]; intros t; cbn [decK fst length]; [reflexivity|].
+    specialize (IH (Eb c)). destruct (decK (Eb c) r). cbn [fst length] in *. lia.
+  Qed.
+
+  Lemma flips_even f : flips f 8 = f.
+  Proof. destruct f; reflexivity. Qed.
+
+  Lemma dec_iter_spec cl : forall f pre post t x brest off,
+    length pre = off -> Forall full cl -> full t -> full x ->
+    dec_iter (length cl) (offs f, (off, mkst (pre ++ concat cl ++ post) (lay f t x brest))) =
+    (offs (flips f (length cl)),
+     (off + bs * length cl,
+      mkst (pre ++ concat (fst (decK t cl)) ++ post)
+           (lay (flips f (length cl)) (snd (decK t cl)) (junkK t x cl) brest))).
+  Proof.
+    induction cl as [|c r IH]; intros f pre post t x brest off Hp Hcl Ht Hx.
+    - cbn [length dec_iter concat decK junkK flips fst snd]. do 2 f_equal. lia.
+    - apply Forall_cons_iff in Hcl. destruct Hcl as [Hc Hr].
+      cbn [length dec_iter concat decK junkK flips]. rewrite <- app_assoc.
+      assert (Hstep : forall s',
+        (let '(toff, noff, (off0, s0)) := (offs f, (off, s')) in
+         dec_iter (length r) (noff, toff, (off0 + bs, dec_step bs E toff noff off0 s0))) =
+        dec_iter (length r) (offs (negb f), (off + bs, dec_step bs E (fst (offs f)) (snd (offs f)) off s')))
+        by (intros s'; destruct f; reflexivity).
+      rewrite Hstep. clear Hstep.
+      rewrite (dec_step_at f pre c (concat r ++ post) t x brest off Hp Hc Ht Hx).
+      assert (Hxl : length (xorl c t) = bs) by (unfold fullb in *; rewrite xorl_length, Hc, Ht; lia).
+      replace (pre ++ xorl c t ++ concat r ++ post) with ((pre ++ xorl c t) ++ concat r ++ post)
+        by (rewrite <- app_assoc; reflexivity).
+      rewrite (IH (negb f) (pre ++ xorl c t) post (Eb c) t brest (off + bs))
+        by (try rewrite app_length; try apply Eb_length; try assumption; lia).
+      destruct (decK (Eb c) r) as [ps t']. cbn [fst snd concat].
+      do 2 f_equal; [lia|]. f_equal. rewrite <- !app_assoc. reflexivity.
+  Qed.
+
+  Lemma dec_stride_spec cl t x brest :
+    Forall full cl -> length cl = 8 -> full t -> full x ->
+    dec_stride bs E (mkst (concat cl) (t ++ x ++ brest)) =
+    mkst (concat (fst (decK t cl))) (snd (decK t cl) ++ junkK t x cl ++ brest).
+  Proof.
+    intros Hcl Hlen Ht Hx. rewrite dec_stride_iter. rewrite <- Hlen.
+    pose proof (dec_iter_spec cl false [] [] t x brest 0 eq_refl Hcl Ht Hx) as H.
+    cbn [app offs lay] in H. rewrite !app_nil_r in H. rewrite H.
+    rewrite Hlen, flips_even. reflexivity.
+  Qed.
+
+  Lemma dec_loop_spec iters : forall cl done rest t x brest,
+    Forall full cl -> length cl = 8 * iters -> full t -> full x ->
+    dec_loop bs E iters done (concat cl ++ rest) (t ++ x ++ brest) =
+    (done ++ concat (fst (decK t cl)),
+     mkst rest (snd (decK t cl) ++ junkK t x cl ++ brest)).
+  Proof.
+    induction iters as [|it IH]; intros cl done rest t x brest Hcl Hlen Ht Hx.
+    - destruct cl; [|cbn in Hlen; lia]. cbn [dec_loop concat decK junkK fst snd app]. rewrite app_nil_r. reflexivity.
+    - cbn [dec_loop].
+      destruct (firstn_skipn_blocks cl 8 Hcl) as [H1 H2].
+      assert (L1 : length (firstn 8 cl) = 8) by (rewrite firstn_length; lia).
+      assert (L2 : length (skipn 8 cl) = 8 * it) by (rewrite skipn_length; lia).
+      pose proof (firstn_skipn 8 cl) as Ecl.
+      remember (firstn 8 cl) as cl1 eqn:E1. remember (skipn 8 cl) as cl2 eqn:E2.
+      clear E1 E2 Hcl Hlen. subst cl.
+      assert (Lc : length (concat cl1) = 8 * bs)
+        by (rewrite (concat_full_length bs _ H1), L1; lia).
+      rewrite concat_app, <- app_assoc.
+      rewrite (firstn_at _ _ _ Lc), (skipn_at _ _ _ Lc).
+      rewrite (dec_stride_spec _ t x brest H1 L1 Ht Hx). cbn [data buf].
+      rewrite (IH cl2 _ rest _ _ brest H2 L2 (decK_t_full t _ Ht) (junkK_full t x _ Ht Hx)).
+      rewrite decK_app, junkK_app. cbn [fst snd].
+      rewrite concat_app. f_equal. symmetry. apply app_assoc.
+  Qed.
+
+  Lemma dec_rem_spec f pre tail t x brest off :
+    length pre = off -> length tail <= bs -> full t -> full x ->
+    dec_rem bs (offs f, (off, mkst (pre ++ tail) (lay f t x brest))) =
+    mkst (pre ++ xorl tail t) (lay f t x brest).
+  Proof.
+    intros Hp Hl Ht Hx. unfold dec_rem.
+    replace (offs f) with (fst (offs f), snd (offs f)) by (destruct f; reflexivity).
+    cbn [data buf]. rewrite (skipn_at _ _ _ Hp), (rd_lay f t x brest Ht Hx).
+    f_equal.
+    pose proof (wr_at pre tail [] (xorl tail t) off Hp) as H. rewrite !app_nil_r in H.
+    apply H. unfold fullb in Ht. rewrite xorl_length, Ht. lia.
+  Qed.
+
+  (* (4) textbook CFB decryption on full blocks ++ short tail *)
+  Lemma cfb_dec_aux_nil fuel fb : cfb_dec_aux bs E fuel fb [] = [].
+  Proof. destruct fuel; reflexivity. Qed.
+
+  Lemma cfb_dec_blocks cl : forall fuel fb tail,
+    Forall full cl -> length tail < bs -> length (concat cl ++ tail) <= fuel ->
+    cfb_dec_aux bs E fuel fb (concat cl ++ tail) =
+    concat (fst (decK (Eb fb) cl)) ++ xorl tail (snd (decK (Eb fb) cl)).
+  Proof.
+    induction cl as [|c r IH]; intros fuel fb tail Hcl Ht Hf.
+    - cbn [concat app decK fst snd] in *.
+      destruct tail as [|t tl]; [rewrite cfb_dec_aux_nil; reflexivity|].
+      destruct fuel as [|f]; [cbn in Hf; lia|]. cbn [cfb_dec_aux].
+      rewrite firstn_all2 by lia. rewrite skipn_all2 by lia. rewrite cfb_dec_aux_nil, app_nil_r. reflexivity.
+    - apply Forall_cons_iff in Hcl. destruct Hcl as [Hc Hr]. cbn [concat] in *. rewrite <- app_assoc in *.
+      rewrite app_length in Hf. unfold fullb in Hc.
+      destruct fuel as [|f]; [lia|]. cbn [cfb_dec_aux].
+      destruct c as [|c0 cr]; [cbn in Hc; lia|].
+      change ((c0 :: cr) ++ concat r ++ tail) with ((c0 :: cr) ++ (concat r ++ tail)).
+      remember (c0 :: cr) as c eqn:Ec.
+      assert (Hne : c ++ concat r ++ tail <> []) by (subst c; discriminate).
+      destruct (c ++ concat r ++ tail) as [|z zs] eqn:Ez; [contradiction|]. rewrite <- Ez.
+      rewrite (firstn_at c _ bs Hc), (skipn_at c _ bs Hc).
+      rewrite (IH f c tail Hr Ht) by lia.
+      cbn [decK]. destruct (decK (Eb c) r) as [ps t']. cbn [fst snd concat].
+      rewrite <- app_assoc. reflexivity.
+  Qed.
+
+  (* (5) assembly *)
+  Theorem decrypt_is_cfb iv ct b :
+    bs <= length iv -> 2 * bs <= length b ->
+    exists b', decrypt_bs bs E iv (mkst ct b) = Some (mkst (cfb_dec bs E (firstn bs iv) ct) b')
+               /\ length b' = length b.
+  Proof.
+    intros Hiv Hb. unfold decrypt_bs. cbn [data buf].
+    replace (length iv <? bs) with false by (symmetry; apply Nat.ltb_ge; lia).
+    replace (length b <? 2 * bs) with false by (symmetry; apply Nat.ltb_ge; lia).
+    cbn [orb].
+    destruct (decompose ct) as (cl & tail & Em & Fcl & Lt & Ln). subst ct.
+    rewrite <- Ln. clear Ln.
+    assert (Hspec : cfb_dec bs E (firstn bs iv) (concat cl ++ tail) =
+                    concat (fst (decK (Eb iv) cl)) ++ xorl tail (snd (decK (Eb iv) cl))).
+    { unfold cfb_dec. rewrite (cfb_dec_blocks cl _ _ tail Fcl Lt) by lia. rewrite Eb_firstn. reflexivity. }
+    rewrite Hspec. clear Hspec.
+    (* scratch = tbl ++ next ++ rest *)
+    assert (Eb0 : wr 0 (Eb iv) b = Eb iv ++ firstn bs (skipn bs b) ++ skipn bs (skipn bs b)).
+    { unfold wr. cbn [firstn app Nat.add]. rewrite Eb_length, firstn_skipn. reflexivity. }
+    rewrite Eb0. clear Eb0.
+    assert (Hx0 : full (firstn bs (skipn bs b))) by (unfold fullb; rewrite firstn_length, skipn_length; lia).
+    assert (Lr : 2 * bs + length (skipn bs (skipn bs b)) = length b) by (rewrite !skipn_length; lia).
+    remember (firstn bs (skipn bs b)) as x0 eqn:Ex0. clear Ex0.
+    remember (skipn bs (skipn bs b)) as brest eqn:Ebr. clear Ebr.
+    remember (length cl) as n eqn:En.
+    assert (Dn : n = 8 * (n / 8) + n mod 8) by (apply Nat.div_mod; lia).
+    assert (Un : n mod 8 < 8) by (apply Nat.mod_upper_bound; lia).
+    destruct (firstn_skipn_blocks cl (8 * (n / 8)) Fcl) as [F1 F2].
+    assert (L1 : length (firstn (8 * (n / 8)) cl) = 8 * (n / 8)) by (rewrite firstn_length; lia).
+    assert (L2 : length (skipn (8 * (n / 8)) cl) = n mod 8) by (rewrite skipn_length; lia).
+    pose proof (firstn_skipn (8 * (n / 8)) cl) as Ecl.
+    remember (firstn (8 * (n / 8)) cl) as cl1 eqn:E1. remember (skipn (8 * (n / 8)) cl) as cl2 eqn:E2.
+    clear E1 E2 En Fcl. subst cl.
+    assert (Hk0 : full (Eb iv)) by apply Eb_length.
+    rewrite concat_app, <- app_assoc.
+    rewrite (dec_loop_spec (n / 8) cl1 [] (concat cl2 ++ tail) (Eb iv) x0 brest F1 L1 Hk0 Hx0).
+    cbn [app]. rewrite decK_app. cbn [fst snd].
+    remember (snd (decK (Eb iv) cl1)) as t1 eqn:Et1.
+    assert (Ht1 : full t1) by (subst t1; apply decK_t_full; exact Hk0).
+    remember (junkK (Eb iv) x0 cl1) as x1 eqn:Ex1.
+    assert (Hx1 : full x1) by (subst x1; apply junkK_full; assumption).
+    rewrite dec_tail_iter by lia. rewrite <- L2.
+    pose proof (dec_iter_spec cl2 false [] tail t1 x1 brest 0 eq_refl F2 Ht1 Hx1) as H.
+    cbn [app offs lay] in H. cbn [offs lay] in H.
+    change (0, bs, (0, {| data := concat cl2 ++ tail; buf := t1 ++ x1 ++ brest |}))
+      with ((0, bs), (0, {| data := concat cl2 ++ tail; buf := t1 ++ x1 ++ brest |})).
+    rewrite H. clear H.
+    remember (snd (decK t1 cl2)) as t2 eqn:Et2.
+    assert (Ht2 : full t2) by (subst t2; apply decK_t_full; exact Ht1).
+    remember (junkK t1 x1 cl2) as x2 eqn:Ex2.
+    assert (Hx2 : full x2) by (subst x2; apply junkK_full; assumption).
+    assert (Lc2 : length (concat (fst (decK t1 cl2))) = 0 + bs * length cl2).
+    { rewrite (concat_full_length bs) by (apply decK_full; assumption). rewrite decK_length. lia. }
+    rewrite (dec_rem_spec _ _ tail t2 x2 brest _ Lc2 ltac:(lia) Ht2 Hx2). cbn [data buf].
+    exists (lay (flips false (length cl2)) t2 x2 brest). split.
+    - f_equal. f_equal. rewrite concat_app, <- app_assoc. reflexivity.
+    - rewrite lay_length. unfold fullb in Ht2, Hx2. lia.
+  Qed.
+
+  (* ================= round trip and lengths (specification level) ================= *)
+  Lemma decK_encK bl : forall ks, Forall full bl -> full ks ->
+    decK ks (fst (encK ks bl)) = (bl, snd (encK ks bl)).
+  Proof.
+    induction bl as [|p r IH]; intros ks Hbl Hk; cbn [encK decK fst snd]; [reflexivity|].
+    apply Forall_cons_iff in Hbl. destruct Hbl as [Hp Hr].
+    specialize (IH (Eb (xorl p ks)) Hr (Eb_length _)).
+    destruct (encK (Eb (xorl p ks)) r) as [cs k']. cbn [fst snd decK] in *.
+    rewrite IH. rewrite xorl_invol by (unfold fullb in *; lia). reflexivity.
+  Qed.
+
+  Theorem cfb_roundtrip fb msg : cfb_dec bs E fb (cfb_enc bs E fb msg) = msg.
+  Proof.
+    destruct (decompose msg) as (bl & tail & Em & Fbl & Lt & _). subst msg.
+    unfold cfb_enc. rewrite (cfb_enc_blocks bl _ fb tail Fbl Lt) by lia.
+    assert (Hk : full (Eb fb)) by apply Eb_length.
+    pose proof (encK_full (Eb fb) bl Hk Fbl) as Fcs.
+    pose proof (encK_ks_full (Eb fb) bl Hk) as Hk'.
+    assert (Lt' : length (xorl tail (snd (encK (Eb fb) bl))) < bs)
+      by (rewrite xorl_length; unfold fullb in Hk'; lia).
+    unfold cfb_dec. rewrite (cfb_dec_blocks _ _ fb _ Fcs Lt') by lia.
+    rewrite (decK_encK bl (Eb fb) Fbl Hk). cbn [fst snd].
+    rewrite xorl_invol by (unfold fullb in Hk'; lia). reflexivity.
+  Qed.
+
+  Theorem cfb_enc_length fb msg : length (cfb_enc bs E fb msg) = length msg.
+  Proof.
+    destruct (decompose msg) as (bl & tail & Em & Fbl & Lt & _). subst msg.
+    unfold cfb_enc. rewrite (cfb_enc_blocks bl _ fb tail Fbl Lt) by lia.
+    assert (Hk : full (Eb fb)) by apply Eb_length.
+    pose proof (encK_ks_full (Eb fb) bl Hk) as Hk'. unfold fullb in Hk'.
+    rewrite !app_length, xorl_length, (concat_full_length bs _ (encK_full _ _ Hk Fbl)),
+      (concat_full_length bs _ Fbl), encK_length. lia.
+  Qed.
+
+  Theorem cfb_dec_length fb ct : length (cfb_dec bs E fb ct) = length ct.
+  Proof.
+    destruct (decompose ct) as (cl & tail & Em & Fcl & Lt & _). subst ct.
+    unfold cfb_dec. rewrite (cfb_dec_blocks cl _ fb tail Fcl Lt) by lia.
+    assert (Hk : full (Eb fb)) by apply Eb_length.
+    pose proof (decK_t_full (Eb fb) cl Hk) as Hk'. unfold fullb in Hk'.
+    rewrite !app_length, xorl_length, (concat_full_length bs _ (decK_full _ _ Hk Fcl)),
+      (concat_full_length bs _ Fcl), decK_length. lia.
+  Qed.
+
+  Lemma cfb_enc_nil fb : cfb_enc bs E fb [] = [].
+  Proof. reflexivity. Qed.
+  Lemma cfb_dec_nil fb : cfb_dec bs E fb [] = [].
+  Proof. reflexivity. Qed.
+End Generic.
 
 (* ---------- stream cipher and none ---------- *)
 Lemma stream_from_involution ks : forall msg i, stream_from ks i (stream_from ks i msg) = msg.
@@ -15,3 +716,105 @@ Proof. induction msg as [|b r IH]; intros i; cbn [stream_from length]; [reflexiv
 
 Lemma stream_involution ks msg : stream_decrypt ks (stream_encrypt ks msg) = msg.
 Proof. apply stream_from_involution. Qed.
+
+(* ================= the two supported block sizes; cryptor instances ================= *)
+Definition supported (bsz : nat) : Prop := bsz = 8 \/ bsz = 16.
+Definition cr_ok (bsz : nat) (c : cryptor) : Prop :=
+  bsz <= length (encbuf c) /\ 2 * bsz <= length (decbuf c).
+
+Lemma supported_pos bsz : supported bsz -> 0 < bsz.
+Proof. intros [-> | ->]; lia. Qed.
+
+Lemma encrypt_supported bsz E iv msg b :
+  supported bsz -> bsz <= length iv -> bsz <= length b ->
+  exists b', encrypt bsz E iv (mkst msg b) = Some (mkst (cfb_enc bsz E (firstn bsz iv) msg) b')
+             /\ length b' = length b.
+Proof.
+  intros [-> | ->] Hiv Hb.
+  - exact (encrypt_is_cfb 8 E ltac:(lia) iv msg b Hiv Hb).
+  - exact (encrypt_is_cfb 16 E ltac:(lia) iv msg b Hiv Hb).
+Qed.
+
+Lemma decrypt_supported bsz E iv ct b :
+  supported bsz -> bsz <= length iv -> 2 * bsz <= length b ->
+  exists b', decrypt bsz E iv (mkst ct b) = Some (mkst (cfb_dec bsz E (firstn bsz iv) ct) b')
+             /\ length b' = length b.
+Proof.
+  intros [-> | ->] Hiv Hb.
+  - exact (decrypt_is_cfb 8 E ltac:(lia) iv ct b Hiv Hb).
+  - exact (decrypt_is_cfb 16 E ltac:(lia) iv ct b Hiv Hb).
+Qed.
+
+Lemma roundtrip_supported bsz E iv msg se sd :
+  supported bsz -> bsz <= length iv -> bsz <= length se -> 2 * bsz <= length sd ->
+  exists s1 s2, encrypt bsz E iv (mkst msg se) = Some s1 /\
+                decrypt bsz E iv (mkst (data s1) sd) = Some s2 /\
+                data s2 = msg /\ length (data s1) = length msg.
+Proof.
+  intros Hs Hiv Hse Hsd.
+  destruct (encrypt_supported bsz E iv msg se Hs Hiv Hse) as (b1 & H1 & _).
+  destruct (decrypt_supported bsz E iv (cfb_enc bsz E (firstn bsz iv) msg) sd Hs Hiv Hsd) as (b2 & H2 & _).
+  eexists; eexists. split; [exact H1|]. cbn [data]. split; [exact H2|]. cbn [data].
+  split; [apply cfb_roundtrip | apply cfb_enc_length]; apply supported_pos; exact Hs.
+Qed.
+
+Lemma length_supported bsz E iv msg se sd :
+  supported bsz -> bsz <= length iv -> bsz <= length se -> 2 * bsz <= length sd ->
+  exists s1 s2, encrypt bsz E iv (mkst msg se) = Some s1 /\ decrypt bsz E iv (mkst msg sd) = Some s2 /\
+                length (data s1) = length msg /\ length (data s2) = length msg.
+Proof.
+  intros Hs Hiv Hse Hsd.
+  destruct (encrypt_supported bsz E iv msg se Hs Hiv Hse) as (b1 & H1 & _).
+  destruct (decrypt_supported bsz E iv msg sd Hs Hiv Hsd) as (b2 & H2 & _).
+  eexists; eexists. split; [exact H1|]. split; [exact H2|]. cbn [data].
+  split; [apply cfb_enc_length | apply cfb_dec_length]; apply supported_pos; exact Hs.
+Qed.
+
+Lemma cstep_spec bsz E iv c o :
+  supported bsz -> bsz <= length iv -> cr_ok bsz c ->
+  exists c', cstep bsz E iv c o = Some (cfb_op bsz E iv o, c') /\ cr_ok bsz c'.
+Proof.
+  intros Hs Hiv [He Hd]. destruct o as [m | m]; cbn [cstep cfb_op].
+  - destruct (encrypt_supported bsz E iv m (encbuf c) Hs Hiv He) as (b' & H & L). rewrite H. cbn [data buf].
+    eexists. split; [reflexivity|]. split; cbn [encbuf decbuf]; lia.
+  - destruct (decrypt_supported bsz E iv m (decbuf c) Hs Hiv Hd) as (b' & H & L). rewrite H. cbn [data buf].
+    eexists. split; [reflexivity|]. split; cbn [encbuf decbuf]; lia.
+Qed.
+
+Lemma crun_spec bsz E iv ops : forall c,
+  supported bsz -> bsz <= length iv -> cr_ok bsz c ->
+  exists c', crun bsz E iv c ops = Some (map (cfb_op bsz E iv) ops, c') /\ cr_ok bsz c'.
+Proof.
+  induction ops as [|o r IH]; intros c Hs Hiv Hc; cbn [crun map].
+  - exists c. split; [reflexivity | exact Hc].
+  - destruct (cstep_spec bsz E iv c o Hs Hiv Hc) as (c1 & H1 & Hc1). rewrite H1.
+    destruct (IH c1 Hs Hiv Hc1) as (c2 & H2 & Hc2). rewrite H2.
+    exists c2. split; [reflexivity | exact Hc2].
+Qed.
+
+Lemma nth_map_nil (f : list N -> list N) (l : list (list N)) :
+  f [] = [] -> forall j, nth j (map f l) [] = f (nth j l []).
+Proof.
+  intros Hf. induction l as [|x l IH]; intros [|j]; cbn [map nth]; try (symmetry; exact Hf); try reflexivity.
+  apply IH.
+Qed.
+
+(* packets encrypted in order by one instance; any selection of them (any order, losses,
+   duplicates) decrypted by another instance in any scratch state gives the selected plaintexts *)
+Lemma any_order bsz E iv (ms : list (list N)) (sel : list nat) cs cr :
+  supported bsz -> bsz <= length iv -> cr_ok bsz cs -> cr_ok bsz cr ->
+  exists cts cs' pts cr',
+    crun bsz E iv cs (map Enc ms) = Some (cts, cs') /\
+    crun bsz E iv cr (map (fun j => Dec (nth j cts [])) sel) = Some (pts, cr') /\
+    pts = map (fun j => nth j ms []) sel.
+Proof.
+  intros Hs Hiv Hcs Hcr.
+  destruct (crun_spec bsz E iv (map Enc ms) cs Hs Hiv Hcs) as (cs' & H1 & _).
+  set (cts := map (cfb_op bsz E iv) (map Enc ms)) in *.
+  destruct (crun_spec bsz E iv (map (fun j => Dec (nth j cts [])) sel) cr Hs Hiv Hcr) as (cr' & H2 & _).
+  exists cts, cs'. eexists. exists cr'. split; [exact H1|]. split; [exact H2|].
+  rewrite map_map. apply map_ext. intros j. cbn [cfb_op].
+  unfold cts. rewrite map_map. cbn [cfb_op].
+  rewrite (nth_map_nil (fun m => cfb_enc bsz E (firstn bsz iv) m) ms eq_refl j).
+  apply cfb_roundtrip. apply supported_pos; exact Hs.
+Qed.
